@@ -103,7 +103,7 @@ def rand_fields(rng, widths):
 def fixed_packet(rng, ver, nrec=None, count=None):
     hw, rw = (V5_HDR, V5_REC) if ver == 5 else (V7_HDR, V7_REC)
     if nrec is None:
-        nrec = rng.choice([0, 1, 1, 2, 3, 5, 30, 31, 40])
+        nrec = rng.choice([0, 1, 1, 2, 3, 5, 30, 31, 40, 40, 255, 256]) if rng.random() < 0.9 else rng.choice([127, 128, 129, 257])
     h = rand_fields(rng, hw)
     h[0] = nrec if count is None else count
     recs = []
@@ -160,7 +160,11 @@ class Exporter:
         rng = self.rng
         tid = tid if tid is not None else rng.choice(self.ids)
         n = rng.choice([1, 1, 2, 3, 4, 6, 10]) if self.conformant else rng.choice([0, 1, 2, 3, 8])
+        if rng.random() < 0.02:
+            n = rng.choice([255, 256, 257])
         fs = [self.v9_field() for _ in range(n)]
+        if fs and rng.random() < 0.1:
+            fs.insert(rng.randrange(len(fs) + 1), rng.choice(fs))      # the same element twice in one template
         if rng.random() < 0.25:
             # make sure the projected fields of the common view are exercised
             extra = [(8, 4), (12, 4), (7, 2), (11, 2), (4, 1), (22, 4), (21, 4), (56, 6), (80, 6), (27, 16), (28, 16)]
@@ -271,7 +275,7 @@ class Exporter:
                 if self.conformant and tid in self.v9_o:
                     continue
                 fs = self.v9_t[tid]
-                nrec = rng.choice([0, 1, 1, 2, 3, 5, 12, 40])
+                nrec = rng.choice([0, 1, 1, 2, 3, 5, 12, 40, 255, 256, 257])
                 size = sum(l for _, l in fs)
                 if size * nrec > 8000:
                     nrec = 8000 // max(1, size)
@@ -320,7 +324,11 @@ class Exporter:
         rng = self.rng
         tid = tid if tid is not None else rng.choice(self.ids)
         n = rng.choice([1, 1, 2, 3, 4, 6, 10]) if self.conformant else rng.choice([0, 1, 2, 3, 8])
+        if rng.random() < 0.02:
+            n = rng.choice([255, 256, 257])
         fs = [self.ix_field() for _ in range(n)]
+        if fs and rng.random() < 0.1:
+            fs.insert(rng.randrange(len(fs) + 1), rng.choice(fs))
         if rng.random() < 0.25:
             extra = [(8, 4, None), (12, 4, None), (7, 2, None), (11, 2, None), (4, 1, None), (22, 4, None), (21, 4, None),
                      (56, 6, None), (80, 6, None), (27, 16, None), (28, 16, None)]
@@ -341,7 +349,7 @@ class Exporter:
         num, ln, ent = f
         dt = self.t.ipfix[num][2] if ent is None else "Vec"
         if ln == 65535:
-            n = rng.choice([0, 1, 2, 5, 20, 254, 255, 300]) if dt not in NATURAL else rng.choice(NATURAL[dt])
+            n = rng.choice([0, 1, 2, 5, 20, 253, 254, 255, 256, 300]) if dt not in NATURAL else rng.choice(NATURAL[dt])
             val = rand_value(rng, dt, n, self.t.proto_parse_ok)
             if n < 255 and rng.random() < 0.8:
                 return be(n, 1) + val
@@ -386,7 +394,7 @@ class Exporter:
                 pool = [("t", i) for i in have_t] + [("o", i) for i in have_o]
                 kind, tid = rng.choice(pool)
                 fs = self.ix_t[tid] if kind == "t" else self.ix_o[tid][1]
-                nrec = rng.choice([1, 1, 2, 3, 5, 12, 40])
+                nrec = rng.choice([1, 1, 2, 3, 5, 12, 40, 255, 256, 257])
                 body = b""
                 for _ in range(nrec):
                     if len(body) > 8000:
@@ -678,6 +686,13 @@ def stress_cases(rng, big=False):
     out.append(Case("stress:v9-zero-len-undecodable",
                     ["P 0", "B 0 " + hexs(v9_pkt([v9_fs(0, be(256, 2) + be(nz + 1, 2) + be(4, 2) + be(1, 2) + (be(1, 2) + be(0, 2)) * nz)])),
                      "B 0 " + hexs(v9_pkt([v9_fs(256, body)]))]))
+    # exact 16-bit boundaries: an IPFIX message of exactly 65,535 bytes (the largest its length field
+    # can say), the same followed by another message (buffer > 64 KiB), a V9 flowset of length 65,535
+    t1 = ipfix_set(2, be(256, 2) + be(1, 2) + be(4, 2) + be(1, 2))
+    full = be(10, 2) + be(65535, 2) + bytes(12) + be(256, 2) + be(65535 - 16, 2) + bytes([6]) * (65535 - 20)
+    out.append(Case("stress:ipfix-message-65535", ["P 0", "B 0 " + hexs(ipfix_msg([t1])), "B 0 " + hexs(full), "B 0 " + hexs(full + ipfix_msg([ipfix_set(256, bytes([17]) * 3)]))]))
+    out.append(Case("stress:v9-flowset-65535", ["P 0", "B 0 " + hexs(v9_pkt([v9_fs(0, be(256, 2) + be(1, 2) + be(4, 2) + be(1, 2))])),
+                                                 "B 0 " + hexs(be(9, 2) + be(1, 2) + bytes(16) + be(256, 2) + be(65535, 2) + bytes([6]) * (65535 - 4))]))
     # durations of 8 and 16 bytes (export Err), 24-bit numbers
     out.append(Case("stress:durations", ["P 0", "B 0 " + hexs(v9_pkt([v9_fs(0, be(256, 2) + be(3, 2) + be(21, 2) + be(8, 2) + be(22, 2) + be(16, 2) + be(1, 2) + be(3, 2)), v9_fs(256, b"\xff" * 27)]))]))
     return out
@@ -736,3 +751,37 @@ def many_templates_case(n=1100, twins=True):
         if twins:
             ops.append("B 1 " + hexs(p))
     return Case("stress:many-template-ids", ops, {"twins": twins})
+
+
+def fill_caches_case():
+    """EVERY template id there is (256..65535), for V9 and for IPFIX, in one buffer each; then data
+    for ids at the ends and in the middle.  No cache may refuse, drop or cap any of them.  The
+    reference model keeps its caches in association lists (quadratic here), so this case is judged
+    by the oracle on the crate's observations alone (meta oracle_only)."""
+    ids = list(range(256, 65536))
+    ops = ["P 0"]
+    buf = b""
+    for lo in range(0, len(ids), 8000):
+        buf += v9_pkt([v9_fs(0, b"".join(be(i, 2) + be(1, 2) + be(1, 2) + be(4, 2) for i in ids[lo : lo + 8000]))])
+    ops.append("B 0 " + hexs(buf))
+    probe = [256, 257, 16383, 16384, 16385, 32767, 32768, 40000, 65534, 65535]
+    ops.append("B 0 " + hexs(v9_pkt([v9_fs(i, be(i, 4)) for i in probe])))
+    buf = b""
+    for lo in range(0, len(ids), 4000):
+        buf += ipfix_msg([ipfix_set(2, be(i, 2) + be(1, 2) + be(1, 2) + be(4, 2)) for i in ids[lo : lo + 4000]])
+    ops.append("B 0 " + hexs(buf))
+    ops.append("B 0 " + hexs(ipfix_msg([ipfix_set(i, be(i, 4)) for i in probe])))
+    return Case("stress:fill-caches", ops, {"oracle_only": True})
+
+
+def large_buffer_case(rng, tables, minimum=70000):
+    """one call with more than 64 KiB of ordinary chained packets, and the same packets one per call"""
+    ex = Exporter(rng, tables, True)
+    pk = []
+    total = 0
+    while total < minimum:
+        b, _d = rand_packet(rng, ex)
+        pk.append(b)
+        total += len(b)
+    ops = ["P 0", "B 0 " + hexs(b"".join(pk)), "P 1"] + ["B 1 " + hexs(b) for b in pk]
+    return Case("large-buffer", ops, {"n": len(pk)})
